@@ -177,15 +177,18 @@ func (csm *ClusterShardMapper) mapMstShards(s *influxql.Measurement, csming *Clu
 			if !engineTypes[g.EngineType] {
 				continue
 			}
-			if shardKeyInfo == nil {
-				shardKeyInfo = measurements[0].GetShardKey(groups[i].ID)
+			// without a database shard key, the measurement's key in force for this group (it can differ between
+			// groups after ALTER ... SHARDKEY)
+			groupShardKeyInfo := shardKeyInfo
+			if groupShardKeyInfo == nil {
+				groupShardKeyInfo = measurements[0].GetShardKey(groups[i].ID)
 			}
 			aliveShardIdxes := csm.MetaClient.GetAliveShards(s.Database, &groups[i], true)
 			var shs []meta2.ShardInfo
 			if opt.HintType == hybridqp.FullSeriesQuery || opt.HintType == hybridqp.SpecificSeriesQuery {
-				shs, csming.seriesKey = groups[i].TargetShardsHintQuery(measurements[0], shardKeyInfo, condition, opt, aliveShardIdxes)
+				shs, csming.seriesKey = groups[i].TargetShardsHintQuery(measurements[0], groupShardKeyInfo, condition, opt, aliveShardIdxes)
 			} else {
-				shs = groups[i].TargetShards(measurements[0], shardKeyInfo, condition, aliveShardIdxes)
+				shs = groups[i].TargetShards(measurements[0], groupShardKeyInfo, condition, aliveShardIdxes)
 			}
 
 			csm.updateShardInfosByPtID(s, g, shs, &shardInfosByPtID)
